@@ -142,9 +142,12 @@ def native_lib(primary, support=(), flags=(), extra_c='', name=None, expose_stat
         stub_c = os.path.join(tmpd, 'vf_stubs.c')
         open(stub_c, 'w').write(STUB_PRELUDE + extra_c)
         # first link: collect undefined symbols
+        stub_o = stub_c + '.o'
+        def cc_stub(): _run([CLANG, '-c', '-fPIC', '-O0', '-Wno-everything'] + INCLUDES + [stub_c, '-o', stub_o])
+        cc_stub()
         link = [CLANGXX if any(_is_cxx(t) for t in primary + support) else CLANG, '-shared', '-o', so + '.tmp'] + \
                (['-fsanitize=address'] if sanitize else []) + objs
-        p = subprocess.run(link + [stub_c, '-fPIC', '-lm', '-lpthread', '-Wl,--no-undefined'], stdout=subprocess.PIPE, stderr=subprocess.PIPE, text=True)
+        p = subprocess.run(link + [stub_o, '-fPIC', '-lm', '-lpthread', '-Wl,--no-undefined'], stdout=subprocess.PIPE, stderr=subprocess.PIPE, text=True)
         if p.returncode != 0:
             und = sorted(set(_UNDEF.findall(p.stderr)))
             if not und:
@@ -152,7 +155,8 @@ def native_lib(primary, support=(), flags=(), extra_c='', name=None, expose_stat
             with open(stub_c, 'a') as f:
                 for u in und:
                     f.write('void %s(void) { vf_abort_stub("%s"); }\n' % (u, u))
-            _run(link + [stub_c, '-fPIC', '-lm', '-lpthread', '-Wl,--no-undefined'])
+            cc_stub()
+            _run(link + [stub_o, '-fPIC', '-lm', '-lpthread', '-Wl,--no-undefined'])
         os.replace(so + '.tmp', so)
     finally:
         shutil.rmtree(tmpd, ignore_errors=True)
